@@ -22,6 +22,7 @@ import (
 
 	quic "github.com/apernet/quic-go"
 	"github.com/apernet/quic-go/congestion"
+	"github.com/apernet/quic-go/monotime"
 
 	"verif.local/engine/vsched"
 	"verif.local/engine/vtime"
@@ -251,12 +252,13 @@ type Conn struct {
 	InitialPacket     congestion.ByteCount
 	Conf              *Config // the quic.Config this side was dialled / listened with
 	CCResets          int     // times quic-go itself would have replaced the congestion controller (path migration)
+	RTT               *RTTStats
 }
 
 func newConn(e *vsched.Exec, n *Net, side int, local, remote net.Addr, tr *Transport) *Conn {
 	ctx, cancel := context.WithCancel(context.Background())
 	return &Conn{e: e, net: n, side: side, local: local, remote: remote, tr: tr, ctx: ctx, cancel: cancel,
-		StreamWindow: n.DefaultStreamWindow, MaxDatagram: n.DefaultMaxDatagram, DatagramQueueCap: 128, InitialPacket: 1252}
+		StreamWindow: n.DefaultStreamWindow, MaxDatagram: n.DefaultMaxDatagram, DatagramQueueCap: 128, InitialPacket: 1252, RTT: &RTTStats{}}
 }
 
 func (c *Conn) Peer() *Conn                              { return c.peer }
@@ -276,8 +278,60 @@ func (c *Conn) ConnectionState() ConnectionState {
 }
 func (c *Conn) InitialPacketSize() congestion.ByteCount { return c.InitialPacket }
 func (c *Conn) SetCongestionControl(cc congestion.CongestionControl) {
+	if cc != nil {
+		cc.SetRTTStatsProvider(c.RTT) // as sentPacketHandler.SetCongestionControl does
+	}
 	c.cc = cc
 	c.CCSets = append(c.CCSets, cc)
+}
+
+// RTTStats is the RTT statistics object a connection hands to the controller installed on it.
+type RTTStats struct{ Min, Latest, Smoothed, MeanDev, AckDelay time.Duration }
+
+func (r *RTTStats) MinRTT() time.Duration        { return r.Min }
+func (r *RTTStats) LatestRTT() time.Duration     { return r.Latest }
+func (r *RTTStats) SmoothedRTT() time.Duration   { return r.Smoothed }
+func (r *RTTStats) MeanDeviation() time.Duration { return r.MeanDev }
+func (r *RTTStats) MaxAckDelay() time.Duration   { return r.AckDelay }
+func (r *RTTStats) PTO(bool) time.Duration       { return r.Smoothed + 4*r.MeanDev + r.AckDelay }
+func (r *RTTStats) UpdateRTT(sendDelta, ackDelay time.Duration) {
+	r.Latest, r.Smoothed = sendDelta, sendDelta
+}
+func (r *RTTStats) SetMaxAckDelay(d time.Duration) { r.AckDelay = d }
+func (r *RTTStats) SetInitialRTT(d time.Duration) {
+	if r.Smoothed == 0 {
+		r.Smoothed, r.Latest = d, d
+	}
+}
+
+// AckEvent delivers one acknowledgement/loss batch to the installed controller the way quic-go's
+// sentPacketHandler does (SetCongestionControl in the pinned fork): through OnCongestionEventEx
+// when the VALUE that was installed implements congestion.CongestionControlEx (ccAdapterEx),
+// otherwise through the per-packet legacy calls OnPacketAcked / OnCongestionEvent (ccAdapter).
+// It reports which path was taken. A wrapper around a controller that hides the optional method
+// silently switches the connection to the legacy path.
+func (c *Conn) AckEvent(prior congestion.ByteCount, now monotime.Time, acked []congestion.AckedPacketInfo, lost []congestion.LostPacketInfo) (ex bool) {
+	if c.cc == nil {
+		return false
+	}
+	if cex, ok := c.cc.(congestion.CongestionControlEx); ok {
+		cex.OnCongestionEventEx(prior, now, acked, lost)
+		return true
+	}
+	for _, a := range acked {
+		c.cc.OnPacketAcked(a.PacketNumber, a.BytesAcked, prior, now)
+	}
+	for _, l := range lost {
+		c.cc.OnCongestionEvent(l.PacketNumber, l.BytesLost, prior)
+	}
+	return false
+}
+
+// NewDetachedConn returns a connection that belongs to no network and no execution: enough to have
+// a congestion controller installed on it and to be asked for its addresses and packet size.
+func NewDetachedConn(local, remote net.Addr) *Conn {
+	ctx, cancel := context.WithCancel(context.Background())
+	return &Conn{local: local, remote: remote, ctx: ctx, cancel: cancel, InitialPacket: 1252, RTT: &RTTStats{}}
 }
 
 // PeerAddressChanged models a peer whose UDP source address changes mid-connection (NAT rebinding,
